@@ -1,5 +1,6 @@
 #!/bin/bash
 # usage: verifyseed.sh <Cxx> <a|b> [extra check ids...]
+# (runs its checks through VERIF_REPO on the scratch worktree; safe to run from a `vp run` snapshot)
 # Confirms a seeded change in a scratch worktree of /repo's HEAD: the demo passes on the clean tree, the patch applies and builds,
 # the repository suite still matches the baseline, the demo fails with the patch; then runs the property's quick check (and any extra
 # checks) against /repo with the patch applied and stores everything under /verif/seeded/<Cxx>-<v>/.
@@ -35,6 +36,15 @@ git -C $wt diff HEAD > /tmp/patch-$id-$v.diff
 (cd $wt && go build ./... ) || { echo "$id-$v: does not build"; cleanup; exit 1; }
 suite=$(/verif/tools/suite.py $wt 2>&1 | head -1)
 rundemo; mut_rc=$?
+# quick checks against the patched scratch worktree (VERIF_REPO), so /repo itself is left alone
+checks="$id $*"
+results=""
+if [ $clean_rc -eq 0 ] && [ $mut_rc -ne 0 ]; then
+  for c in $checks; do
+    out=$(cd "$(dirname "$0")/.." && VERIF_REPO=$wt timeout 1500 ./run.sh check $c quick 2>&1); rc=$?
+    results="$results$id-$v check=$c exit=$rc violations=$(echo "$out" | grep -a -c '^VIOLATION') :: $(echo "$out" | grep -a -A1 '^VIOLATION' | grep -a 'sub=' | head -1 | cut -c1-200)\n"
+  done
+fi
 cleanup
 echo "$id-$v: demo_on_clean_tree_exit=$clean_rc suite_with_patch=[$suite] demo_with_patch_exit=$mut_rc"
 if [ $clean_rc -ne 0 ] || [ $mut_rc -eq 0 ] || ! echo "$suite" | grep -q "missing_from_baseline=0 new_failures=0"; then
@@ -45,12 +55,6 @@ cp /tmp/patch-$id-$v.diff $dst/patch.diff
 [ -n "$demo" ] && cp "$demo" $dst/demo_test.go
 [ -n "$demosh" ] && cp "$demosh" $dst/demo.sh
 cp $src/NOTES.md $dst/NOTES.md 2>/dev/null
-checks="$id $*"
-results=""
-for c in $checks; do
-  line=$(/verif/tools/trymutant.sh $dst/patch.diff $c 2>/dev/null | tail -1)
-  results="$results$line\n"
-done
 printf "$results" > $dst/checks.txt
 python3 - "$id" "$v" "$dst" "$suite" <<'PY'
 import json, sys, re, subprocess
